@@ -35,7 +35,7 @@ RULE = (
     'faults; 16 further header spellings: is_lmf false => load and add raise, is_lmf true => '
     'the whole valid oracle. The enumerated subcheck applies every class at every position of '
     'generated documents. The bytes subcheck feeds raw bytes (valid documents, byte edits and, in '
-    'the thorough tier, an atheris/libFuzzer campaign of 15000 executions per shard) to the '
+    'the thorough tier, an atheris/libFuzzer campaign of 10000 executions per shard) to the '
     'implication form: load accepts => is_lmf and scan agrees; load rejects => add rejects and '
     'the database is unchanged. Non-trivial: any mutant; a valid document with a reference, either '
     'quote, literal white space or a look-alike in what scan_lexicons reads; distinct by '
@@ -675,7 +675,7 @@ def _enumerate_bytes(tier, shard, nshards):
     if tier != 'thorough':
         return
     # coverage-guided campaign in a subprocess (same oracle: check_bytes)
-    runs = int(os.environ.get('C20_FUZZ_RUNS', '15000'))
+    runs = int(os.environ.get('C20_FUZZ_RUNS', '10000'))
     seconds = 180       # safety cap only; the campaign is bounded by executions
     work = env.new_dir('c20fuzz')
     corpus, findings = work / 'corpus', work / 'findings'
